@@ -98,10 +98,9 @@ QuickCalls == NoHdrCalls \cup StreamOK({"prod", "exch"}, 2, {0, 2, 3}, {"eq", "b
               \cup StreamOK({"prodh", "exchh", "dynp"}, 1, {1, 3}, {"castable"}, {"collide"}, {<<>>})
               \cup StreamBad({"prod", "exchh"})
 SmallCalls == StreamOK({"prod", "exch"}, 1, {0, 2}, {"eq"}, {"none"}, {<<>>}) \cup StreamBad({"prod"})
-FullCalls == NoHdrCalls \cup
-             StreamOK({"prod", "prodh", "exch", "exchh", "dynp", "dynx"}, 2, {0, 1, 2, 3}, {"eq", "castable", "bad"},
-                      {"none", "user", "collide", "dup"}, Lg1)
-             \cup StreamBad({"prod", "prodh", "exch", "exchh", "dynp", "dynx"})
+\* FullCalls (the six-method alphabet) lives in HttpStreamFull.tla: TLC pre-computes every constant-level
+\* definition of the root module at start-up and that set takes six minutes to enumerate -- every
+\* cfg paid for it, also those that never use it.
 \* streams whose data batches are externalized (ExtK = 9): plain, annotated and logged emits,
 \* every terminator -- the externalize branch of each flush loop has its own ownership rules
 ExtCalls == StreamOK({"prod", "exch"}, 1, {0, 2}, {"eq"}, {"none", "user"}, {<<>>}) \cup StreamBad({"prod"})
